@@ -137,6 +137,19 @@ def tick (s : St) (now : Nat) : St × List Spawn :=
   let (s, pend) := reify now (s.tasks.length + 1) s []
   runPending s pend
 
+/-- libev's `periodics_reschedule()`: after a step of the wall clock (`time_update` sees real time run away from
+the monotonic clock) every periodic that still has its reschedule callback is asked again, with the new time and with
+no callback to follow -/
+def reschedAll (s : St) (now : Nat) : St :=
+  s.tasks.foldl (fun (s : St) (t : DTask) =>
+    match s.tasks.find? (·.sid == t.sid) with
+    | some t => if t.active && t.resched then s.upd (resched t now) else s
+    | none => s) s
+
+/-- a loop iteration that begins with a step of the wall clock to `now` -/
+def jump (s : St) (now : Nat) : St × List Spawn :=
+  tick (reschedAll { s with now := now } now) now
+
 /-- `chld_cb` for the k-th child watcher ever started; `pend` = watchers whose callback is pending in this
 loop iteration (`ev_is_pending`) -/
 def childExitPending (s : St) (k : Nat) (pend : List Nat) : St × Bool :=
